@@ -50,6 +50,7 @@ KIND_IO = {
     "add": (["obj", "other"], ["add"]),
     "lt": (["obj", "other"], ["lt"]),
     "if": (["condition"], ["truth"]),
+    "loc": (["a"], ["o"]),
 }
 MACRO_ARGS = {"M1": ["x"], "M2": ["x", "y"], "M3": ["x", "y", "z"]}
 
@@ -62,6 +63,20 @@ def Snap(a="d"):
     o = ("snap", a)
     return o
 
+
+def _make_local():
+    """a node class that cannot be imported (defined in <locals>): plain pickle refuses it, cloudpickle and the
+    `.cpckl` fallback of the file back end take it by value"""
+
+    @as_function_node("o", validate_output_labels=False)
+    def Loc(a="d"):
+        o = ("loc", a)
+        return o
+
+    return Loc
+
+
+Loc = _make_local()
 
 ForF1 = for_node_factory(nodes.F1, ("a",), (), False, None, True)
 I2L = inputs_to_list_factory(2, True)
@@ -89,6 +104,8 @@ def make_child(spec):
         n = L2O(label=label)
     elif kind == "snap":
         n = Snap(label=label)
+    elif kind == "loc":
+        n = Loc(label=label)
     elif kind == "ui":
         n = standard.UserInput(label=label)
     elif kind == "add":
